@@ -326,6 +326,15 @@ REGISTRY["C13"]["teq"].append({"engine": "conc", "quick": {"n": 24, "mode": "mem
 REGISTRY["C12"]["teq"].append(seq({"only": "limited", "autocheck": 1, "n": 6, "ops": 80, "seedoff": 212}, {"only": "limited", "autocheck": 1, "seedoff": 212}))
 REGISTRY["C13"]["teq"].append(seq({"only": "limited", "n": 10, "ops": 80, "seedoff": 113}, {"only": "limited", "seedoff": 113}))
 REGISTRY["C11"]["teq"].append(_f1(11))
+REGISTRY["C13"]["teq"].append({"engine": "sweep", "quick": {"n": 16, "seedoff": 313}, "thorough": {"n": 64, "seedoff": 313},
+                                "oracle": True, "mismatch_is_failure": False, "timeout": 3400,
+                                "nontrivial": lambda case, res: "reads=0" not in case, "distinct_key": lambda case, res: case,
+                                "what": "accounting with the TTL sweeper: stores whose sweeper removes expired keys every 10-80 ms (and stores without one); after the run memory_usage() must equal the sum over the records still indexed of overhead + key + value, and len() their number"})
+REGISTRY["C12"]["teq"].append({"engine": "crash", "quick": {"n": 1, "points": 10, "seedoff": 12}, "thorough": {"tier": "thorough", "seedoff": 12},
+                                "oracle": True, "mismatch_is_failure": False, "timeout": 3400,
+                                "nontrivial": lambda case, res: "plan=" in case and not case.endswith("none") and res.startswith("ok") and "keys=-" not in res,
+                                "distinct_key": lambda case, res: res,
+                                "what": "the clock after crash recovery: the C02 crash images (several generations of a key on the device in either sector order) reopened by the real code; in the reopening child every clock shard must be at or above every timestamp recovered into it (2^64-1 excepted), so that the next automatic write on any recovered key is newer"})
 REGISTRY["C10"]["teq"].append({"engine": "crash", "quick": {"n": 1, "points": 8, "ttl": 1, "seedoff": 310}, "thorough": {"tier": "thorough", "ttl": 1, "seedoff": 310},
                                 "oracle": True, "mismatch_is_failure": True, "timeout": 3400,
                                 "nontrivial": lambda case, res: "plan=" in case and res.startswith("ok") and "keys=-" not in res,
